@@ -10,7 +10,7 @@ Three kinds of cases:
   * the approximate set (sqrt, exp, log..., not decided by proof) is only MEASURED against libm
     in extra_checks() and compared with the bounds recorded in APPROX_BOUNDS.
 """
-import glob
+import json
 import os
 import struct
 import subprocess
@@ -191,10 +191,144 @@ def related_pairs(f, rng, n):
     return out
 
 
+# ---------------------------------------------------------------------------------------------
+# x87 extended (long double): values are triples (sign, 64-bit significand, 15-bit biased exponent)
+# ---------------------------------------------------------------------------------------------
+UNARY80 = ["floor", "ceil", "trunc", "round", "rint", "rint_fb", "fabs", "abs", "g_abs",
+           "isnan", "isinf", "isfinite", "signbit", "g_is_nan", "g_is_inf", "g_is_finite",
+           "lrint", "llrint", "lrint_fb", "llrint_fb", "g_sgn"]
+BINARY80 = ["copysign", "fmin", "fmax", "fdim", "fmod", "remainder", "midpoint"]
+X87_BIAS = 16383
+X87_INF = (0, 1 << 63, 32767)
+X87_NAN = (0, (1 << 63) | (1 << 62), 32767)
+
+
+def x87_of_fraction(q):
+    """canonical encoding of the rational q if it is exactly representable, else None"""
+    from fractions import Fraction
+    q = Fraction(q)
+    if q == 0:
+        return (0, 0, 0)
+    s = 1 if q < 0 else 0
+    q = abs(q)
+    e2 = q.numerator.bit_length() - q.denominator.bit_length() - 63
+    two = Fraction(2)
+    while q / two ** e2 >= 1 << 64:
+        e2 += 1
+    while q / two ** e2 < 1 << 63:
+        e2 -= 1
+    E = e2 + X87_BIAS + 63
+    if E >= 32767:
+        return None
+    if E <= 0:
+        m = q / two ** (-16445)
+        return (s, int(m), 0) if m.denominator == 1 else None
+    m = q / two ** e2
+    return (s, int(m), E) if m.denominator == 1 else None
+
+
+def x87_neighbours(v):
+    s, m, e = v
+    out = []
+    if e == 0:
+        for d in (-1, 1):
+            if 0 <= m + d < (1 << 63):
+                out.append((s, m + d, 0))
+    elif e < 32767:
+        for d in (-1, 1, 2):
+            if (1 << 63) <= m + d < (1 << 64):
+                out.append((s, m + d, e))
+    return out
+
+
+def boundary80(rng, quick):
+    from fractions import Fraction
+    vals = set()
+    top = 1 << 63
+    mants = [top, top + 1, top + 2, top | (1 << 62), (top | (1 << 62)) + 1, (top | (1 << 62)) - 1, (1 << 64) - 1, (1 << 64) - 2]
+    exps = set(range(X87_BIAS - 68, X87_BIAS + 70)) | {1, 2, 3, 32766, 32765, X87_BIAS + 100, X87_BIAS - 100, X87_BIAS + 1000}
+    exps |= set(range(1, 32767, 977 if quick else 61))
+    for e in sorted(exps):
+        for m in mants + [top | rng.getrandbits(63)]:
+            vals.add((0, m, e))
+    for m in [1, 2, 3, 1 << 62, top - 1, top - 2, rng.getrandbits(63) % top or 1]:
+        vals.add((0, m, 0))
+    for k in range(-40, 41):
+        for d in (Fraction(0), Fraction(1, 2), Fraction(1, 4), Fraction(3, 4)):
+            v = x87_of_fraction(k + d)
+            if v is not None:
+                vals.add(v)
+                vals.update(x87_neighbours(v))
+    for j in [-70, -64, -63, -1, 0, 1, 23, 24, 31, 32, 52, 53, 61, 62, 63, 64, 65, 66, 100]:
+        for d in (Fraction(0), Fraction(1, 2), Fraction(-1, 2), Fraction(1), Fraction(-1), Fraction(3, 2)):
+            v = x87_of_fraction(Fraction(2) ** j + d)
+            if v is not None:
+                vals.add(v)
+                vals.update(x87_neighbours(v))
+    for k in range(-6, 7):
+        for base, d in ((Fraction(2) ** 62, Fraction(1, 2)), (Fraction(2) ** 61, Fraction(1, 4)), (Fraction(2) ** 63, Fraction(0))):
+            v = x87_of_fraction(base + k + d)
+            if v is not None:
+                vals.add(v)
+    for _ in range(100 if quick else 3000):
+        vals.add((0, top | rng.getrandbits(63), rng.randrange(1, 32767)))
+    out = set()
+    for (s, m, e) in vals:
+        out.add((0, m, e))
+        out.add((1, m, e))
+    out |= {X87_INF, (1,) + X87_INF[1:], X87_NAN}
+    return sorted(out)
+
+
+def grid80(rng, n_rand):
+    from fractions import Fraction
+    g = [(0, 0, 0), (0, 1, 0), (0, (1 << 63) - 1, 0), (0, 1 << 63, 1), X87_INF, X87_NAN, (0, (1 << 64) - 1, 32766),
+         (0, (1 << 64) - 1, 32765), (0, 1 << 63, 32766)]
+    for q in (1, 2, 3, 5, 7, 10, Fraction(1, 2), Fraction(3, 2), Fraction(5, 2), Fraction(1, 4), 6, 100,
+              Fraction(2) ** 63, Fraction(2) ** 63 - Fraction(1, 2), Fraction(2) ** 64, Fraction(2) ** -30,
+              Fraction(2) ** 62 + Fraction(1, 2), 10 ** 10, Fraction(1, 1024)):
+        g.append(x87_of_fraction(q))
+    for _ in range(n_rand):
+        g.append((0, (1 << 63) | rng.getrandbits(63), rng.randrange(1, 32767)))
+        g.append((0, (1 << 63) | rng.getrandbits(63), X87_BIAS + rng.randrange(-20, 21)))
+    out = set()
+    for (s, m, e) in g:
+        out.add((0, m, e))
+        if (0, m, e) != X87_NAN:
+            out.add((1, m, e))
+    return sorted(out)
+
+
+def t80(v):
+    return "%d %d %d" % v
+
+
+def gen80(tier, rng):
+    quick = tier != "thorough"
+    out = []
+    bnd = boundary80(rng, quick)
+    for fn in UNARY80:
+        for v in bnd:
+            out.append(f"{fn}80 {t80(v)}")
+    grid = grid80(rng, 3 if quick else 30)
+    def near(x, y):
+        # the exact integer arithmetic of the Coq spec of fmod / remainder / midpoint works on
+        # 2^|ex - ey|-sized integers: keep the exponents within 200 of each other (or a special operand)
+        return x[2] in (0, 32767) and x[1] in (0, 1 << 63) or y[2] in (0, 32767) and y[1] in (0, 1 << 63) or abs(x[2] - y[2]) <= 200
+    for fn in BINARY80:
+        for x in grid:
+            for y in grid:
+                if fn in ("fmod", "remainder", "midpoint") and not near(x, y):
+                    continue
+                out.append(f"{fn}80 {t80(x)} {t80(y)}")
+    return out
+
+
 def gen(tier, rng):
     out = []
     quick = tier == "quick"
     search = tier == "search"
+    out += gen80(tier, rng)
     for f in (F32, F64):
         t = f.tag
         bnd = boundary(f, rng, quick or search)
@@ -231,18 +365,19 @@ def gen(tier, rng):
         cnt32 = 1 << 24
         for fn in SWEEP_UNARY:
             out.append(f"sweep32 {fn} {rng.randrange(256)} 257 {cnt32}")
-            out.append(f"sweep64 {fn} {rng.getrandbits(40)} {(1 << 40) + 2 * rng.getrandbits(20) + 1} {1 << 22}")
+            # stride ~ 2^64 / count: the arithmetic progression wraps over the whole pattern space
+            out.append(f"sweep64 {fn} {rng.getrandbits(64)} {(1 << 42) + 2 * rng.getrandbits(20) + 1} {1 << 22}")
         for fn in SWEEP_BINARY:
             out.append(f"sweep32 {fn} {rng.randrange(1024)} 1031 {1 << 22}")
-            out.append(f"sweep64 {fn} {rng.getrandbits(42)} {(1 << 42) + 2 * rng.getrandbits(20) + 1} {1 << 21}")
+            out.append(f"sweep64 {fn} {rng.getrandbits(64)} {(1 << 43) + 2 * rng.getrandbits(20) + 1} {1 << 21}")
     else:
         for fn in SWEEP_UNARY:
             for k in range(16):
                 out.append(f"sweep32 {fn} {k << 28} 1 {1 << 28}")
-            out.append(f"sweep64 {fn} {rng.getrandbits(36)} {(1 << 36) + 2 * rng.getrandbits(20) + 1} {1 << 28}")
+            out.append(f"sweep64 {fn} {rng.getrandbits(64)} {(1 << 36) + 2 * rng.getrandbits(20) + 1} {1 << 28}")
         for fn in SWEEP_BINARY:
             out.append(f"sweep32 {fn} {rng.randrange(16)} 17 {1 << 28}")
-            out.append(f"sweep64 {fn} {rng.getrandbits(38)} {(1 << 38) + 2 * rng.getrandbits(20) + 1} {1 << 26}")
+            out.append(f"sweep64 {fn} {rng.getrandbits(64)} {(1 << 38) + 2 * rng.getrandbits(20) + 1} {1 << 26}")
     return out
 
 
@@ -254,3 +389,135 @@ def nontrivial(case, impl):
         return True
     toks = impl.split()
     return not (len(toks) == 2 and toks[1] in ("2143289344", "9221120237041090560"))
+
+
+# ---------------------------------------------------------------------------------------------
+# the approximate set: MEASURED against libm, compared with recorded numbers (regression test)
+# ---------------------------------------------------------------------------------------------
+HERE = os.path.dirname(os.path.abspath(__file__))
+# a cell whose recorded error is larger than this (or that has NaN/inf placement mismatches) is a
+# recorded inaccuracy region: only "does not crash" is checked there (see NOTES.md, known findings)
+APPROX_GROSS_ULP = 1000.0
+APPROX_GROSS_MARGIN = 64.0   # coarse regression margin inside recorded inaccuracy regions
+APPROX_MARGIN = 4.0      # measured error may be this many times the recorded one (sampling differs)
+APPROX_FLOOR = 3.0       # ... but at least this many ulps are always allowed
+
+
+def _approx_run(exe, lines, timeout=600):
+    """runs the measurement tool on the given request lines; returns list of dicts (None = no answer)"""
+    try:
+        r = subprocess.run([str(exe)], input="\n".join(lines) + "\n", capture_output=True, text=True, timeout=timeout)
+        outs = r.stdout.splitlines()
+    except subprocess.TimeoutExpired as e:
+        outs = (e.stdout or b"").decode("utf-8", "replace").splitlines() if isinstance(e.stdout, bytes) else []
+    res = []
+    for i in range(len(lines)):
+        if i >= len(outs) or "max_ulp=" not in outs[i]:
+            res.append(None)
+            continue
+        kv = dict(t.split("=", 1) for t in outs[i].split()[2:])
+        res.append({"max_ulp": float(kv["max_ulp"]), "at": int(kv["at"]), "special": int(kv["special"]),
+                    "first_special": kv["first_special"], "n": int(kv["n"]),
+                    "got": kv.get("got"), "want": kv.get("want"), "raw": outs[i]})
+    return res
+
+
+def extra_checks(ctx):
+    from vlib import engine
+    items = []
+    exe, log = engine.build_harness("C16", "approx", "approx.cpp", ["-O1"])
+    if exe is None:
+        return [{"kind": "violation", "found_input": False,
+                 "payload": {"property": "C16", "kind": "approx.cpp does not compile against /repo/include",
+                             "no_longer_checks": log[-2000:]}}]
+    table = json.load(open(os.path.join(HERE, "approx_bounds.json")))
+    per_cell = 1500 if ctx.tier != "thorough" else 20000
+    reqs, cells = [], []
+    for c in table["cells"]:
+        if "crash" in c:
+            continue
+        lo, hi = c["lo"], c["hi"]
+        step = max(1, (hi - lo) // per_cell)
+        lo2 = lo + ctx.rng.randrange(step)
+        reqs.append(f"{c['name']} {c['fmt']} {lo2} {hi} {per_cell}")
+        cells.append(c)
+    # the tool stops at the first request it cannot survive (stack overflow ...): resume after it
+    results = [None] * len(reqs)
+    start = 0
+    crashed = []
+    while start < len(reqs):
+        part = _approx_run(exe, reqs[start:])
+        k = 0
+        while k < len(part) and part[k] is not None:
+            results[start + k] = part[k]
+            k += 1
+        if start + k < len(reqs):
+            crashed.append(start + k)
+            start = start + k + 1
+        else:
+            break
+    evaluations = 0
+    worst = []
+    checked = gross = 0
+    by_fn = {}     # function -> list of (excess factor, payload): one VIOLATION per function, worst cell first
+    for i, (c, r) in enumerate(zip(cells, results)):
+        tag = f"{c['name']} binary{c['fmt']} {c['cell']}"
+        if r is None:
+            by_fn.setdefault(c["name"], []).append((float("inf"), {
+                "property": "C16", "kind": "approximate function crashes or hangs on this argument range",
+                "case": "approx " + reqs[i], "cell": tag}))
+            continue
+        evaluations += r["n"]
+        if c["max_ulp"] > APPROX_GROSS_ULP or c["special"] > 0:
+            # recorded inaccuracy region: only a coarse "not much worse than recorded" test
+            gross += 1
+            frac0 = c["special"] / max(1, c["n"])
+            frac = r["special"] / max(1, r["n"])
+            # (an error bound is applied only when the region is listed for NaN/inf placement alone: near a zero of
+            # the function an already inaccurate kernel has an unbounded error in ulps, sampling decides what is seen)
+            ubound = APPROX_GROSS_MARGIN * max(c["max_ulp"], APPROX_FLOOR) if c["max_ulp"] <= APPROX_GROSS_ULP else float("inf")
+            if r["max_ulp"] > ubound or frac > 1.5 * frac0 + 0.02:
+                bits = r["at"] if r["max_ulp"] > ubound else r["first_special"]
+                by_fn.setdefault(c["name"], []).append((r["max_ulp"] / ubound, {
+                    "property": "C16", "kind": "approximate function became much worse than its recorded (already inaccurate) behaviour",
+                    "case": f"approx {c['name']} {c['fmt']} {bits} {bits} 1", "cell": tag,
+                    "failing_argument_bits": bits, "impl": r["raw"],
+                    "reference": f"recorded max_ulp={c['max_ulp']} special={c['special']}/{c['n']}; allowed max_ulp<={ubound} special fraction<={1.5 * frac0 + 0.02:.3f}"}))
+            continue
+        checked += 1
+        bound = max(APPROX_FLOOR, APPROX_MARGIN * c["max_ulp"])
+        if r["max_ulp"] > bound or r["special"] > 0:
+            bits = r["at"] if r["max_ulp"] > bound else r["first_special"]
+            by_fn.setdefault(c["name"], []).append((r["max_ulp"] / bound if r["special"] == 0 else float("inf"), {
+                "property": "C16", "kind": "approximate function left its recorded error bound against libm",
+                "case": f"approx {c['name']} {c['fmt']} {bits} {bits} 1", "cell": tag,
+                "failing_argument_bits": bits, "impl": r["raw"],
+                "reference": f"recorded max_ulp={c['max_ulp']} special={c['special']}; allowed max_ulp<={bound} special=0"}))
+        worst.append((r["max_ulp"], tag))
+    for fn, lst in sorted(by_fn.items()):
+        lst.sort(key=lambda t: -t[0])
+        payload = dict(lst[0][1])
+        payload["failing_cells_same_function"] = len(lst)
+        payload["more_failing_cells"] = [p["cell"] + " @ " + str(p.get("failing_argument_bits", "?")) for _, p in lst[1:6]]
+        items.append({"kind": "violation", "found_input": True, "payload": payload})
+    # recorded defects of the approximate set: single arguments, must still fail in the recorded way
+    for k in ctx.known:
+        a = k.get("approx")
+        if not a:
+            continue
+        r = _approx_run(exe, [f"{a['name']} {a['fmt']} {a['bits']} {a['bits']} 1"])[0]
+        still = r is not None and (r["max_ulp"] >= a.get("min_ulp", float("inf")) or (a.get("special") and r["special"] > 0))
+        if still:
+            ctx.reported_known.add(k["id"])
+            items.append({"kind": "known", "text": f"{k['id']}: {k['what']} [witness: {a['name']} binary{a['fmt']} bits {a['bits']} -> {r['got']}; expected {r['want']}]"})
+        else:
+            items.append({"kind": "violation", "found_input": False,
+                          "payload": {"property": "C16", "kind": "recorded finding of the approximate set no longer reproduces (update known_findings.json)",
+                                      "no_longer_checks": k["id"], "measured": None if r is None else r["raw"]}})
+    worst.sort(reverse=True)
+    ctx.evidence = {"approximate_set": {
+        "status": "measured against glibc libm (long double), not proved",
+        "cells_checked_against_recorded_bound": checked, "cells_recorded_as_inaccurate_not_bounded": gross,
+        "evaluations": evaluations, "margin": APPROX_MARGIN, "floor_ulp": APPROX_FLOOR,
+        "largest_errors_in_checked_cells": [f"{u:.1f} ulp {t}" for u, t in worst[:8]]}}
+    return items
